@@ -554,6 +554,58 @@ defs.append("(* %s: true = the raw module makes read return Err(ModuleReadFailur
                cmp_(ulr["o_op"], opd(E_MLR, ulr["o_l"], UR_), "t")))
 sites.append(("g_unloaded_read_bad", UR_))
 
+# ============================================================================ memory lists read from stream bytes
+# MinidumpMemory::read: the null-RVA / empty guard, location_slice, and which raw fields become (base_address, size)
+MM = "MinidumpMemory::read (minidump.rs)"
+mm = match("if <a_l:opd> <a_op:cmp> <a_c:int> || <b_l:opd> <b_op:cmp> <b_c:int> { return Err(Error::MemoryReadFailure); } "
+           "let bytes = location_slice(data, &desc.memory).or(Err(Error::StreamReadFailure))?; "
+           "Ok(MinidumpMemory { desc: *desc, base_address: <f_b:opd>, size: <f_s:opd> as u64, bytes, endian, })",
+           block_after(mdsrc, r"pub fn read\(\s*desc: &md::MINIDUMP_MEMORY_DESCRIPTOR,\s*data: &'a \[u8\],\s*endian: scroll::Endian,\s*\) -> Result<MinidumpMemory<'a>, Error> \{", MM), MM)
+E_MM = {"desc.memory.rva": "rva", "desc.memory.data_size": "size", "desc.start_of_memory_range": "base"}
+LS = "location_slice (minidump.rs)"
+ls = match("let start = <s:opd> as usize; start .checked_add(<z:opd> as usize) .and_then(|end| bytes.get(start..end)) .ok_or(Error::StreamReadFailure)",
+           block_after(mdsrc, r"fn location_slice<'a>\(\s*bytes: &'a \[u8\],\s*loc: &md::MINIDUMP_LOCATION_DESCRIPTOR,\s*\) -> Result<&'a \[u8\], Error> \{", LS), LS)
+E_LS = {"loc.rva": "rva", "loc.data_size": "size"}
+MLR = "MinidumpMemoryList::read (minidump.rs)"
+if block_after(mdsrc, r"fn read\(\s*bytes: &'a \[u8\],\s*all: &'a \[u8\],\s*endian: scroll::Endian,\s*_system_info: Option<&MinidumpSystemInfo>,\s*\) -> Result<MinidumpMemoryList<'a>, Error> \{", MLR) != \
+        ("let mut offset = 0; let descriptors: Vec<md::MINIDUMP_MEMORY_DESCRIPTOR> = read_stream_list(&mut offset, bytes, endian)?; "
+         "let mut regions = Vec::with_capacity(descriptors.len()); for raw in descriptors.into_iter() { "
+         "if let Ok(memory) = MinidumpMemory::read(&raw, all, endian) { regions.push(memory); } else { continue; } } "
+         "Ok(MinidumpMemoryList::from_regions(regions))"):
+    die(MLR + ": no longer `push the regions MinidumpMemory::read accepts, skip the others, from_regions`")
+M64 = "MinidumpMemory64List::read (minidump.rs)"
+m64body = block_after(mdsrc, r"fn read\(\s*bytes: &'a \[u8\],\s*all: &'a \[u8\],\s*endian: scroll::Endian,\s*_system_info: Option<&MinidumpSystemInfo>,\s*\) -> Result<MinidumpMemory64List<'a>, Error> \{", M64)
+m64i = m64body.find("let mut regions = Vec::with_capacity(raw_entries.len());")
+if m64i < 0 or "let mut rva: u64 = bytes .gread_with(&mut offset, endian) .or(Err(Error::StreamReadFailure))?;" not in m64body[:m64i]:
+    die(M64 + ": the base rva / region loop were not found")
+m64 = match("let mut regions = Vec::with_capacity(raw_entries.len()); for raw in raw_entries { let start = rva; "
+            "let end = rva .checked_add(<z:opd>) .ok_or(Error::StreamReadFailure)?; "
+            "let bytes = all .get(start as usize..end as usize) .ok_or(Error::StreamReadFailure)?; "
+            "regions.push(MinidumpMemory64 { desc: raw, base_address: <f_b:opd>, size: <f_s:opd>, bytes, endian, }); rva = end; } "
+            "Ok(MinidumpMemory64List::from_regions(regions))", m64body[m64i:], M64)
+E_M64 = {"raw.data_size": "size", "raw.start_of_memory_range": "base"}
+defs.append("(* %s: true = Err, the list reader skips the descriptor *)\n"
+            "Definition g_memory_read_null (rva size : Z) : bool := %s || %s.\n"
+            "(* %s: Some slice <-> start + size does not overflow usize and start <= end <= bytes.len() *)\n"
+            "Definition g_location_slice_ok (len rva size : Z) : bool :=\n"
+            "  match checked_add 64 %s %s with Some e => (Z.leb %s e) && (Z.leb e len) | None => false end.\n"
+            "(* %s: the region kept for a raw descriptor (start_of_memory_range, data_size, rva): (base_address, size) *)\n"
+            "Definition g_memory_read (len base size rva : Z) : option (Z * Z) :=\n"
+            "  if g_memory_read_null rva size then None\n"
+            "  else if g_location_slice_ok len rva size then Some (%s, %s) else None.\n"
+            "(* %s: one region; None = Err for the whole stream, Some (next rva, (base_address, size)) *)\n"
+            "Definition g_mem64_step (len rva base size : Z) : option (Z * (Z * Z)) :=\n"
+            "  match checked_add 64 rva %s with\n"
+            "  | None => None\n"
+            "  | Some e => if (Z.leb rva e) && (Z.leb e len) then Some (e, (%s, %s)) else None\n"
+            "  end.\n"
+            % (MM, cmp_(mm["a_op"], opd(E_MM, mm["a_l"], MM), mm["a_c"]), cmp_(mm["b_op"], opd(E_MM, mm["b_l"], MM), mm["b_c"]),
+               LS, opd(E_LS, ls["s"], LS), opd(E_LS, ls["z"], LS), opd(E_LS, ls["s"], LS),
+               MM, opd(E_MM, mm["f_b"], MM), opd(E_MM, mm["f_s"], MM),
+               M64, opd(E_M64, m64["z"], M64), opd(E_M64, m64["f_b"], M64), opd(E_M64, m64["f_s"], M64)))
+sites.append(("g_memory_read*, g_location_slice_ok", MM + ", " + LS + ", " + MLR))
+sites.append(("g_mem64_step", M64))
+
 # unloaded modules: sorted vector + filter(contains)
 UB = "MinidumpUnloadedModuleList::from_modules (minidump.rs)"
 ub = block_after(mdsrc, r"pub fn from_modules\(modules: Vec<MinidumpUnloadedModule>\) -> MinidumpUnloadedModuleList \{", UB)
